@@ -1,2 +1,5 @@
 import TransportVerif.Props.C07
-#print axioms TV.Props.C07.placeholder
+#print axioms TV.Props.C07.growUntil_succeeds
+#print axioms TV.Props.C07.write_full_iff
+#print axioms TV.Props.C07.refused_write_is_noop
+#print axioms TV.Props.C07.count_size_exact
